@@ -22,11 +22,12 @@ def dispatchFuzz : List String → Option (Obs × Option Obs)
       | .ok l => hexList (sortBytes (l.map seqLine))
       | .error _ => "err"
     let m : Obs :=
-      [ ("fsok", showBool fsok), ("isfr", showBool isfr),
+      [ ("fsok", showBool fsok), ("isfr", showBool isfr), ("agree", showBool (fsok == isfr)),
         ("seq4", seqOk .hash4), ("seq1", seqOk .hash1),
         ("padr", hex (padFrameRange s 4)),
         ("list", lst) ]
-    some (m, some [("isfr", showBool fsok)])
+    -- the property relates the implementation's own two answers (C15_isFrameRange)
+    some (m, some [("agree", "1")])
   | _ => none
 
 end Gfs.Ops
